@@ -1502,3 +1502,8 @@ mod tests {
     }
 
 }
+
+// Verification hook (add-only): compiled only under `cargo kani` or `--cfg heathcliff_verif`.
+#[cfg(any(kani, heathcliff_verif))]
+#[path = "/verif/incrate/serialize_v.rs"]
+pub(crate) mod verif_v;
